@@ -12,6 +12,7 @@ import Driver.Sampling
 import Driver.Naming
 import Driver.Wrappers
 import Driver.Emf
+import Driver.Queue
 /-!
 `driver <engine>`: reads one request per line on stdin, prints one reply per line.
 Every engine is a pure function `String → String` of the request line (stateful models receive the
@@ -32,7 +33,8 @@ def engines : List (String × (String → String)) := [
   ("sampling", Driver.Sampling.handle),
   ("naming", Driver.Naming.handle),
   ("wrappers", Driver.Wrappers.handle),
-  ("emf", Driver.Emf.handle)
+  ("emf", Driver.Emf.handle),
+  ("queue", Driver.Queue.handle)
 ]
 
 partial def loop (h : IO.FS.Stream) (out : IO.FS.Stream) (f : String → String) : IO Unit := do
